@@ -40,7 +40,8 @@ What `Model/Gate.lean` has and this model adds / changes:
   an `AttachClone` that is still queued behind a `Reconfigure` in the old channel.
 * Clones handle `FollowSubscribe` / `FollowUnsubscribe` by editing `self.updates`, which is the
   *same shared map* (as in `Model/Gate.lean`).  After a `Reconfigure` a stale `FollowSubscribe`
-  therefore puts a slot of the *old* generation into the new map (`Chan.res`, ghost).
+  therefore puts a slot of the *old* generation into the new map (`Chan.res`, ghost);
+  `Variant.followEdits = false` is the proposed repair (the clone arms only consume the command).
 
 Simplifications (stated in `checks/Xgatereconf.json`): update queues are unbounded here (the
 back-pressure of queue links is `Model/Gate.lean`'s business; the engine gives queue links more
@@ -55,6 +56,7 @@ processed`, `St.handled`.
 namespace Rotonda.GateReconf
 open Rotonda.Gate (upd ins del seqsOf Slot Pub Msg)
 
+/-- gate generations are numbered `0, 1, …` (plain `Nat` so that `omega` sees them) -/
 abbrev Gen := Nat
 
 inductive Cmd where
@@ -63,7 +65,7 @@ inductive Cmd where
   | attach (c : Pub)
   | detach (c : Pub)
   | terminate
-  | reconfigure (g : Gen)
+  | reconfigure (g : Nat)
   | followSub (s : Slot)
   | followUnsub (s : Slot)
   | followReconf
@@ -91,6 +93,9 @@ structure Busy where
 structure Variant where
   staleSender : Bool
   notifyPanics : Bool
+  /-- clones edit the (shared) subscription map when they handle `FollowSubscribe` /
+      `FollowUnsubscribe`; `false` = the proposed repair: the arms only consume the command -/
+  followEdits : Bool
   deriving DecidableEq, Repr
 
 structure PubSt where
@@ -117,7 +122,7 @@ structure Chan where
   /-- GHOST: the downstream component this subscription belongs to -/
   owner : Nat := 0
   /-- generation of the agent the link was made from = the channel its commands go into -/
-  via : Gen := 0
+  via : Nat := 0
   /-- GHOST: the gate handled the `Subscribe` (inserted the slot and answered) -/
   acked : Bool := false
   /-- GHOST: the gate handled `Unsubscribe` for this slot -/
@@ -136,12 +141,12 @@ structure Chan where
 structure St where
   updates : List Slot
   /-- generation of the command receiver the root gate reads -/
-  rx : Gen
+  rx : Nat
   /-- gate generations created so far (`0 .. ngen-1`) -/
   ngen : Nat
   /-- generation `NormalGateState.command_sender` points at -/
-  sendGen : Gen
-  chq : Gen → List Cmd
+  sendGen : Nat
+  chq : Nat → List Cmd
   /-- `clone_senders`, in insertion order -/
   clones : List Pub
   busy : Option Busy
@@ -160,7 +165,7 @@ inductive Step where
   | pubBegin (p : Pub)
   | pubDeliver (p : Pub) (s : Slot)
   | pubEnd (p : Pub)
-  | linkSubscribe (s : Slot) (d : Nat) (g : Gen)
+  | linkSubscribe (s : Slot) (d : Nat) (g : Nat)
   | linkDisconnect (s : Slot) (keep : Bool)
   | agentReconfigure
   | agentTerminate
@@ -181,10 +186,10 @@ def init (ccap : Nat) : St :=
     chans := fun _ => {}, npubs := 1, nslots := 0, ccap := ccap, handled := 0 }
 
 /-- Room in command channel `g`. -/
-def St.room (st : St) (g : Gen) : Bool := (st.chq g).length < st.ccap
+def St.room (st : St) (g : Nat) : Bool := (st.chq g).length < st.ccap
 
 /-- Push a command into channel `g`. -/
-def St.push (st : St) (g : Gen) (x : Cmd) : St := { st with chq := upd st.chq g (st.chq g ++ [x]) }
+def St.push (st : St) (g : Nat) (x : Cmd) : St := { st with chq := upd st.chq g (st.chq g ++ [x]) }
 
 /-- Some sender of clone `c`'s command channel still exists: the attach task, an `AttachClone`
     queued in a channel that is still read or will be read, or `clone_senders`. -/
@@ -217,13 +222,14 @@ def rootHandle (v : Variant) (st : St) (x : Cmd) : St :=
   | .followReconf => st
 
 /-- A clone handles one command. -/
-def cloneHandle (st : St) (c : Pub) (x : Cmd) : St :=
+def cloneHandle (v : Variant) (st : St) (c : Pub) (x : Cmd) : St :=
   match x with
   | .followSub s =>
-    let ch := st.chans s
-    { st with updates := ins s st.updates,
-              chans := upd st.chans s { ch with res := ch.res || !(decide (ch.via = st.rx) && !ch.unsubbed) } }
-  | .followUnsub s => { st with updates := del s st.updates }
+    if v.followEdits then
+      { st with updates := ins s st.updates,
+                chans := upd st.chans s { st.chans s with res := (st.chans s).res || !(decide ((st.chans s).via = st.rx) && !(st.chans s).unsubbed) } }
+    else st
+  | .followUnsub s => if v.followEdits then { st with updates := del s st.updates } else st
   | .followReconf => { st with pubs := upd st.pubs c { st.pubs c with reconfSeen := (st.pubs c).reconfSeen + 1 } }
   | .terminate => { st with pubs := upd st.pubs c { st.pubs c with terminated := true } }
   | _ => st
@@ -324,7 +330,7 @@ def step (v : Variant) (st : St) : Step → Option St
           some { st with busy := some { b with rest := R, blocked := false, closedFound := true } }
   | .cloneNew c =>
     if c = st.npubs then
-      some { st with pubs := upd st.pubs c { alive := true, attachPending := true }, npubs := st.npubs + 1 }
+      some { st with pubs := upd st.pubs c { st.pubs c with alive := true, attachPending := true }, npubs := st.npubs + 1 }
     else none
   | .cloneAttach c =>
     let P := st.pubs c
@@ -340,7 +346,7 @@ def step (v : Variant) (st : St) : Step → Option St
     if c ≠ 0 && P.alive && !P.terminated then
       match P.cmdq with
       | [] => none
-      | x :: q => some (cloneHandle { st with pubs := upd st.pubs c { P with cmdq := q, processed := P.processed + 1 } } c x)
+      | x :: q => some (cloneHandle v { st with pubs := upd st.pubs c { P with cmdq := q, processed := P.processed + 1 } } c x)
     else none
   | .cloneClosed c =>
     let P := st.pubs c
@@ -367,10 +373,10 @@ def run (v : Variant) (st : St) : List Step → Option St
 
 /-- The current tree: command sender follows the reconfigure (e536b86), `notify_clones` panics
     when a clone goes away while the root waits for room in its queue. -/
-def asIs : Variant := ⟨false, true⟩
+def asIs : Variant := ⟨false, true, true⟩
 /-- Before e536b86. -/
-def asWritten : Variant := ⟨true, true⟩
-def repaired : Variant := ⟨false, false⟩
+def asWritten : Variant := ⟨true, true, true⟩
+def repaired : Variant := ⟨false, false, false⟩
 
 /-- The link's subscription belongs to the generation the gate currently serves, has been
     answered and not unsubscribed. -/
